@@ -1194,7 +1194,9 @@ def _run_block(r, blocks, keep=False, verbose=False):
         # assumptions and (b) functions that have acquired a loop without a loop contract -- then *every*
         # obligation is re-examined, because truncated paths make the unbounded run's successes meaningless.
         # a broken loop invariant masks the postconditions (they are proved from the invariant): re-examine all
-        ids = None if (unwind_fail or loop_bad) else [x['id'] for x in und]
+        # an undecided loop obligation has no counterpart in the loop-free instance either: all postconditions are re-examined
+        loop_und = [x for x in und if LOOP_OBL.search(x['id'] or '')]
+        ids = None if (unwind_fail or loop_bad or loop_und) else [x['id'] for x in und]
         rf = refute_small(r, b, cfile, hname, cmd, ids, tmo)
         for x in r.obligations:
             if x['id'] in rf and '.unwind.' not in (x['id'] or ''):
